@@ -341,8 +341,10 @@ func workCurve(rc *recorder, rng *rand.Rand, scale int) {
 		rc.out("EdwardsPoint.MulBasepoint", encE(curve.NewEdwardsPoint().MulBasepoint(curve.ED25519_BASEPOINT_TABLE, s)))
 		rc.out("EdwardsPoint.DoubleScalarMulBasepointVartime", encE(curve.NewEdwardsPoint().DoubleScalarMulBasepointVartime(s, P.Lib, s2)))
 		rc.out("EdwardsPoint.ExpandedDoubleScalarMulBasepointVartime", encE(curve.NewEdwardsPoint().ExpandedDoubleScalarMulBasepointVartime(s, P.Exp, s2)))
-		rc.out("EdwardsPoint.TripleScalarMulBasepointVartime", bb(curve.NewEdwardsPoint().TripleScalarMulBasepointVartime(s, P.Lib, s2, Q.Lib).IsSmallOrder()))
-		rc.out("EdwardsPoint.ExpandedTripleScalarMulBasepointVartime", bb(curve.NewEdwardsPoint().ExpandedTripleScalarMulBasepointVartime(s, P.Exp, s2, Q.Lib).IsSmallOrder()))
+		t3 := curve.NewEdwardsPoint().TripleScalarMulBasepointVartime(s, P.Lib, s2, Q.Lib)
+		rc.out("EdwardsPoint.TripleScalarMulBasepointVartime", bb(t3.IsSmallOrder()), encE(t3)) // the bytes too: a caller can look at them
+		t3 = curve.NewEdwardsPoint().ExpandedTripleScalarMulBasepointVartime(s, P.Exp, s2, Q.Lib)
+		rc.out("EdwardsPoint.ExpandedTripleScalarMulBasepointVartime", bb(t3.IsSmallOrder()), encE(t3))
 		rc.out("EdwardsPoint.SetExpanded/Point", encE(curve.NewEdwardsPoint().SetExpanded(P.Exp)), encE(P.Exp.Point()))
 		// an expansion re-targeted to another point while a value copy of it is still in use: the same history in every
 		// configuration must give the same bytes
